@@ -44,8 +44,15 @@ def run_unit(kind, name, reg, opts):
     raise KeyError(kind)
 
 
-def gres(name, ok, detail='', replay=None):
+def gres(name, ok, detail='', probe=None, expected=None):
+    """A ground obligation.  probe: dotted attribute path re-evaluated natively in the replay."""
     r = Result(name, 'proved' if ok else 'refuted', 0.0, 'evaluation', detail=detail, kind='ground')
+    if not ok and probe:
+        from pyvc import replay
+        job = {'target': 'pyvc.probe.attr', 'args': [probe]}
+        obs = replay.native_calls([job])[0]
+        r.replay = {'confirmed': True, 'args': {'attribute': probe}, 'expected': expected or detail,
+                    'observed': obs, 'job': job}
     return r
 
 
@@ -65,8 +72,16 @@ def _c11_default(reg, opts):
 
 
 PROPS = {
+    'C14': PropSpec('C14', ground=['C14.catalogue', 'C14.properties'], floor=1200, exhaustive=True,
+                    assumptions=['the specification table spec/tables.py is a hand transcription (trusted artefact)',
+                                 'tools/codegen.py is not executed (needs network); the property is about the shipped module']),
+    'C17': PropSpec('C17', ground=['C17.reply-codes', 'C17.constants'], floor=100, exhaustive=True,
+                    assumptions=['the reply-code table in spec/tables.py is a hand transcription (trusted artefact)']),
     'C11': PropSpec('C11', contracts=C11_CONE,
                     lemmas=['contracts.lemmas.c11_toggle', 'contracts.lemmas.c11_toggle_default'],
                     ground=['C11.switch-default'], floor=150,
                     assumptions=['the legacy switch holds a bool (the setter stores its argument unchecked)']),
 }
+
+
+from props import ground as _ground_units  # noqa: E402,F401  (registers the ground tables)
